@@ -25,7 +25,7 @@ pub fn property() -> Property {
             "reference codec; tokio paused clock / current-thread scheduler; harness pipe",
             "H4 verif_table_sizes for the state-released check",
         ],
-        families: vec![(Box::new(FinFam), 15_000, 160_000), (Box::new(crate::props::e2e::EofFam), 48, 600)],
+        families: vec![(Box::new(FinFam), 15_000, 160_000), (Box::new(crate::props::e2e::EofFam), 48, 600), (Box::new(crate::props::e2e::SrvFinFam), 120, 2_000)],
     }
 }
 
